@@ -109,6 +109,18 @@ def judge_logs(rep, hists, rc, logs, stderr, how):
                 rep.violation(f"history {i} ({how}): the process ended with rc {rc}: {stderr.strip()[-400:]}", {"fam": "lifecycle", "history": h, "how": how},
                               expected="every history runs to its end", observed=stderr[-3000:])
             continue
+        # conformance with Lifecycle.tla's Freeze: a SchemaMut with a dangling key must be refused, a sound one accepted
+        built = {}
+        for o_ in h:
+            if o_["op"] in ("parse", "build"):
+                built[o_["s"]] = o_.get("bad", 0)
+        for ln in lg:
+            if ln.startswith("freeze s"):
+                sl = int(ln.split()[1][1:])
+                want = "err" if built.get(sl, 0) > 0 else "ok"
+                if ln.split()[2] != want:
+                    rep.violation(f"history {i} ({how}): freeze of a SchemaMut {'with a dangling key ' if want == 'err' else ''}answered '{ln.split()[2]}', the model says {want}: {ln[:120]}",
+                                  {"fam": "lifecycle", "history": h, "how": how}, expected=f"Lifecycle!Freeze: {want}", observed=ln)
         bad = [ln for ln in lg if "PAR-MISMATCH" in ln]
         if bad:
             rep.violation(f"history {i} ({how}): concurrent use of one schema gives results that differ from sequential use: {bad[0][:300]}",
@@ -147,11 +159,82 @@ def run(tier, seed):
     with open(allp, "w") as f:
         for h in hists:
             f.write(json.dumps(h) + "\n")
+    rng0 = random.Random(seed + 5)
     # native: threads and sequential
     rc, logs, se = run_native(allp)
     judge_logs(rep, hists, rc, logs, se, "native, threads")
     rc2, logs2, se2 = run_native(allp, seq=True)
     judge_logs(rep, hists, rc2, logs2, se2, "native, sequential")
+    # trace validation of the native runs against Lifecycle.tla: every operation enabled in the model, freeze as predicted, and the
+    # Arc strong counts observed at drop_handle = the owners the model attributes to the allocation
+    tv_hist = list(range(len(core))) + rng0.sample(range(len(core), len(hists)), min(len(hists) - len(core), 2500 if tier == "quick" else 25000))
+    tevents, towner = [], []
+    for i in tv_hist:
+        lg = logs.get(i)
+        if lg is None or len(lg) < len(hists[i]):
+            continue
+        tevents.append({"op": {"op": "reset"}, "res": "", "strong": -1})
+        towner.append(i)
+        for o_, ln in zip(hists[i], lg):
+            ev = {"op": o_, "res": "", "strong": -1}
+            if o_["op"] == "freeze":
+                ev["res"] = ln.split()[2] if len(ln.split()) > 2 else "?"
+            elif o_["op"] == "drop_handle":
+                m_ = re.search(r"strong was (\d+)", ln)
+                ev["strong"] = int(m_.group(1)) if m_ else -2
+            tevents.append(ev)
+            towner.append(i)
+            if o_["op"] == "drop_reader":
+                tevents.append({"op": {"op": "drop_reader2"}, "res": "", "strong": -1})
+                towner.append(i)
+    nch = common.NCPU
+    per = (len(tevents) + nch - 1) // nch
+    # cut at history boundaries
+    chunks, owners_c, cur, cur_o = [], [], [], []
+    for ev, ow in zip(tevents, towner):
+        if ev["op"]["op"] == "reset" and len(cur) >= per:
+            chunks.append(cur)
+            owners_c.append(cur_o)
+            cur, cur_o = [], []
+        cur.append(ev)
+        cur_o.append(ow)
+    if cur:
+        chunks.append(cur)
+        owners_c.append(cur_o)
+    results = common.validate_traces_parallel("Trace_Lifecycle", "Trace_Lifecycle.cfg", chunks, timeout=2400)
+    n_tv = 0
+    for ch, ow, res in zip(chunks, owners_c, results):
+        rest, rest_o, guard = ch, ow, 0
+        while not res["accepted"] and guard < 6:
+            guard += 1
+            fu = res["first_unmatched"]
+            if fu is None or fu < 1 or fu > len(rest):
+                raise common.ToolError("Trace_Lifecycle failed without a usable reject index:\n" + res["out"][-2500:])
+            i = rest_o[fu - 1]
+            ev = rest[fu - 1]
+            if ev["op"]["op"] in ("freeze", "drop_handle"):
+                rep.violation(f"history {i}: {ev['op']} answered res='{ev['res']}' strong={ev['strong']}: not what Lifecycle.tla predicts (freeze outcome / owners of the node vector)",
+                              {"fam": "lifecycle", "history": hists[i], "how": "trace"}, expected="Trace_Lifecycle!ObsOk", observed=logs.get(i))
+            else:
+                raise common.ToolError(f"Lifecycle.tla does not enable operation {ev['op']} of a history it generated (history {i})")
+            j = fu
+            while j < len(rest) and rest[j]["op"]["op"] != "reset":
+                j += 1
+            rest, rest_o = rest[j:], rest_o[j:]
+            if not rest:
+                break
+            res = common.validate_trace("Trace_Lifecycle", "Trace_Lifecycle.cfg", rest, timeout=2400)
+        n_tv += len(ch)
+    # binding: a wrong strong count / freeze answer must be rejected
+    probe = [e for e in tevents if e["op"]["op"] == "drop_handle"]
+    if probe:
+        k = tevents.index(probe[0])
+        start = max(j for j in range(k + 1) if tevents[j]["op"]["op"] == "reset")
+        good = tevents[start:k + 1]
+        badt = json.loads(json.dumps(good))
+        badt[-1]["strong"] += 1
+        if common.validate_trace("Trace_Lifecycle", "Trace_Lifecycle.cfg", good)["accepted"] and common.validate_trace("Trace_Lifecycle", "Trace_Lifecycle.cfg", badt)["accepted"]:
+            raise common.ToolError("Trace_Lifecycle accepts a wrong strong count: vacuous")
     nondet = 0
     for i in range(len(hists)):
         a, b = logs.get(i), logs2.get(i)
@@ -218,7 +301,7 @@ def run(tier, seed):
                 "FrozenWhole, Accounting, TypeOk; mutated designs (reader releases its Arc before its state; failed freeze publishes a partial vector) refuted. "
                 "Histories = one per (abstract state, incoming operation) at depth 5 (6 thorough) (breadth-first) + random walks of 16 steps; all executed natively (threads vs sequential, twice) and the "
                 "highest-scoring + random sample under Miri.",
-        "histories": len(hists), "bfs_histories": len(bfs), "random_walks": len(sim1), "miri_histories": n_miri_done, "miri_flagsets": flagsets,
+        "histories": len(hists), "bfs_histories": len(bfs), "random_walks": len(sim1), "miri_histories": n_miri_done, "trace_validated_events": n_tv, "miri_flagsets": flagsets,
         "ops_executed": ops, "samples": [hists[pick[0]]], "exhaustive": False,
     }
     common.write_evidence(PROP, tier, seed, "exploration", cov,
